@@ -1495,6 +1495,9 @@ class ForAll(BinaryOperator):
             # the condition is evaluated once per value of the universal variable, its results for one value are not
             # duplicates of its results for another.
             required_vars.update(self.variable._unique_variables_)
+            # the bindings of all non-universal variables of the condition are intersected over the universal values,
+            # also of those nobody above needs: two results that differ only in such a variable are not duplicates.
+            required_vars.update(self.condition_unique_variables)
         return required_vars
 
     def _universal_values_were_abandoned_(self) -> None:
